@@ -476,7 +476,7 @@ P("C01", outside=["Lemma L beyond the toy bound; num-bigint and SHA-1 being corr
 H("C01", "", "c01_flow", timeout=3600, tiers=["quick"], oracle_features=["cap192", "q32"],
   encodes=["NormalizedString::new", "SrpVerifier::{from_username_and_password, username, password_verifier, salt, from_database_values, into_proof}", "SrpProof::{server_public_key, salt, into_server}",
            "PublicKey::from_le_bytes", "SrpClientChallenge::{new, client_public_key, client_proof, verify_server_proof}", "SrpServer::session_key", "SrpClient::session_key", "srp_internal::calculate_session_key"],
-  inputs="name, password (1..3 printable bytes each), a per-letter case mask for the client's spelling, salt / b / a (RNG draws): all any",
+  inputs="name, password (normalised, 1..3 bytes each), salt / b / a (RNG draws): all any",
   asserts="register -> export -> re-import -> challenge -> client -> server accepts -> client accepts -> session keys byte-identical and equal to K(S)",
   bounds="credentials <= 3 bytes; leaves uninterpreted", assumes=[STUB_ASSUME, LEMMA_L, LEMMA_M, RNG_ASSUME])
 H("C01", "", "c01_flow_16", timeout=10800, tiers=["thorough"], oracle_features=["cap192", "q32"],
